@@ -166,7 +166,7 @@ def illFormedGraph (tb : List (Nat × BTR)) : Option String :=
 /-- `none` = the model reproduces falcon's function -/
 def asmCheck (req ans : String) : Option String :=
   match splitBar req, splitBar ans with
-  | head :: _, [fnS, _, _, _, asmS] =>
+  | head :: _, fnS :: _ :: _ :: _ :: asmS :: _ =>
     let hf := head.splitOn " "
     let entry := (hf[4]?.bind Sx.parseNat).getD 0
     let manual := parseManual (hf[5]?.getD "m=")
